@@ -13,6 +13,8 @@ type Entry struct {
 	File *ir.File
 	Cfg  *ir.Config
 	Tags []string
+	// Pinned: exclusions the entry's name overrides depend on (kept by OptionVariant).
+	Pinned []string
 }
 
 func file(name string, msgs ...*ir.Message) *ir.File {
@@ -200,6 +202,15 @@ func K6(variant int) *Entry {
 		f := file("k6b", holder, opt)
 		AutoComments(f)
 		return &Entry{Name: "k6b", File: f, Cfg: BaseConfig("Policy"), Tags: []string{"embed?", "embed?-temporal-only"}}
+	case 3:
+		// embedded messages without fields (by value first in the declaration order, nullable inside a nested message); sort off
+		holder := M("Marked", F("Marker", MsgT("Void"), NonNull(), Embed()), F("Name"), F("Count", Sc(ir.Int64)), F("Sub", MsgT("MarkedSub")), F("Subs", MsgT("MarkedSub"), Rep(), NonNull()))
+		sub := M("MarkedSub", F("SubName"), F("Flag", MsgT("Void2"), Embed()), F("SubCount", Sc(ir.Int32)))
+		f := file("k6d", holder, sub, M("Void"), M("Void2"))
+		AutoComments(f)
+		c := BaseConfig("Marked")
+		c.Sort, c.SortSet = false, true
+		return &Entry{Name: "k6d", File: f, Cfg: c, Tags: []string{"embed", "embed?", "embedded-empty-msg", "sort-off"}}
 	default:
 		opt := M("Extra", F("ExtraName"), F("ExtraCount", Sc(ir.Int64)), F("ExtraFlag", Sc(ir.Bool)), F("ExtraKind", EnumT("Mode")), F("ExtraBlob", Sc(ir.Bytes)),
 			F("ExtraWhen", TS(), Null()), F("ExtraSpan", Dur(), NonNull()), F("ExtraTags", Rep()), F("ExtraDict", MapOf()), F("ExtraLeaf", MsgT("Leaf")),
@@ -270,7 +281,19 @@ func K8() *Entry {
 		"NamedChild.InnerByKey":       "inner_key_renamed",
 		"Naming.Children.InnerByPath": "inner_path_renamed_in_list",
 	}
-	return &Entry{Name: "k8", File: f, Cfg: c, Tags: []string{"naming", "json-tag", "name-override"}}
+	// two adjacent excluded fields; an override that reuses the attribute name of an excluded field
+	c.ExcludeFields = []string{"Naming.single", "Naming.WithDigits2", "NamedChild.v_x"}
+	c.NameOverrides["Naming.lower_snake_name"] = "single"
+	// fields whose only comment is a trailing / detached one have an empty description
+	for _, n := range []string{"Key", "Value", "HyphenTag"} {
+		for _, fl := range m.Fields {
+			if fl.Name == n {
+				fl.Comment, fl.HasComment = "", false
+				Trail(" " + n + " has a same-line remark only\n")(fl)
+			}
+		}
+	}
+	return &Entry{Name: "k8", File: f, Cfg: c, Tags: []string{"naming", "json-tag", "name-override"}, Pinned: []string{"Naming.single"}}
 }
 
 // K9: one message type at several paths (also through lists, maps and embeds).
@@ -299,6 +322,11 @@ func K9() *Entry {
 	c.UseStateForUnknown = true
 	c.ComputedFields = []string{"User.Title", "Meta.Revision", "User.Spec.Level"}
 	c.PlanModifiers = map[string][]string{"User.Title": {PM("t1"), PM("t2")}, "User.Spec.Level": {PM("l1"), USFU, PM("l2")}}
+	// a path-specific exclusion below a nested occurrence of an exported type
+	c.ExcludeFields = []string{"Pref.Meta.Labels", "User.Spec.Meta.Owner.Email"}
+	// an explicit empty list under a full path switches off what the Message.Field key configures
+	c.Validators = map[string][]string{"Meta.Revision": {V("rev")}, "User.Meta.Revision": {}, "Owner.Login": {V("login1"), V("login2")}, "User.Backup.Owner.Login": {}}
+	c.PlanModifiers["Pref.Meta.Revision"] = []string{}
 	return &Entry{Name: "k9", File: f, Cfg: c, Tags: []string{"multi-path", "multi-root", "embed", "time"}}
 }
 
@@ -451,7 +479,7 @@ func K14() *Entry {
 // Curated returns the curated corpus. known=true adds the isolated shapes that
 // are known not to compile on the pinned tree (D1, D2).
 func Curated() []*Entry {
-	return []*Entry{K1(), K2(), K3(), K4(), K5(), K6(0), K6(1), K6(2), K7(), K7X(), K8(), K9(), K10(false), K10(true), K12(), K13(), K14()}
+	return []*Entry{K1(), K2(), K3(), K4(), K5(), K6(0), K6(1), K6(2), K6(3), K7(), K7X(), K8(), K9(), K10(false), K10(true), K12(), K13(), K14()}
 }
 
 // Exotic returns the isolated shapes (K11).
